@@ -1273,12 +1273,11 @@ Definition fdict_of (D : domain) : fdict :=
           (Many (map fbnd_of (d_boundary D))) (map fconn_of (sort i_name (d_conn D))).
 
 Lemma todict_multi D :
-  2 <= length (d_interiors D) -> 2 <= length (d_boundary D) -> todict D = Ok (fdict_of D).
+  2 <= length (d_interiors D) -> length (d_boundary D) <> 1 -> todict D = Ok (fdict_of D).
 Proof.
   intros Hi Hb. unfold todict, fdict_of.
   destruct (d_interiors D) as [|p1 [|p2 l]]; simpl in Hi; try lia.
-  destruct (d_boundary D) as [|b1 [|b2 lb]]; simpl in Hb; try lia.
-  reflexivity.
+  destruct (d_boundary D) as [|b1 [|b2 lb]]; simpl in Hb; try lia; reflexivity.
 Qed.
 
 Lemma face_eta f : mkFace (f_patch f) (f_axis f) (f_ext f) = f.
@@ -1323,7 +1322,7 @@ Section RoundTrip.
   Hypothesis Wb : rl_no_bar rl.
   Hypothesis Wc : pair_bound rl.
   Hypothesis Wi : forall f, In f (joined_faces rl) -> In f (all_faces ps).
-  Hypothesis Hb2 : 2 <= length (d_boundary D).
+  Hypothesis Hb2 : length (d_boundary D) <> 1.
 
   Let ints := d_interiors D.
   Let dim := d_dim D.
@@ -1628,7 +1627,7 @@ Definition roundtrip_hyps (pl : list patch) (cs : list conn) (nm : string) (D : 
   /\ join (map patch_dom pl) cs nm = Ok D /\ resolve_all (map patch_dom pl) cs = Ok rl
   /\ NoDup (joined_faces rl) /\ rl_no_bar rl /\ pair_bound rl
   /\ (forall f, In f (joined_faces rl) -> In f (all_faces (map patch_dom pl)))
-  /\ 2 <= length (d_boundary D).
+  /\ length (d_boundary D) <> 1.
 
 Theorem roundtrip_joined pl cs nm D rl :
   roundtrip_hyps pl cs nm D rl ->
@@ -1661,7 +1660,7 @@ Definition roundtrip_wf_b (pl : list patch) (cs : list conn) (nm : string) : boo
      | Ok rl => forallb (fun f => existsb (face_beq f) (all_faces ps)) (joined_faces rl)
      | Err _ => false
      end
-  && match join ps cs nm with Ok D => Nat.leb 2 (length (d_boundary D)) | Err _ => false end.
+  && match join ps cs nm with Ok D => negb (Nat.eqb (length (d_boundary D)) 1) | Err _ => false end.
 
 Lemma snodup_sound l : snodup l = true -> NoDup l.
 Proof.
@@ -1687,7 +1686,7 @@ Proof.
   split; [exact EJ|]. split; [exact Hr|]. split; [exact W2|]. split; [exact W3|].
   split. { now apply (pair_bound_b_sound ps cs). }
   split. { rewrite forallb_forall in A7. intros f Hf. apply In_face_b. auto. }
-  now apply Nat.leb_le.
+  apply negb_true_iff in A8. now apply Nat.eqb_neq.
 Qed.
 
 (* ================================================================ C15: the orientation is not in the file *)
